@@ -84,7 +84,19 @@ def gen_dp(rng, n, tier):
         pts = gen_pts(rng, sc, k, False)
         if rng.random() < 0.1:
             pts = [[i * sc, 0.0] for i in range(k)]      # all collinear
-        out.append({'pts': pts, 'eps': rng.choice([0.001, 0.05, 0.5, 2, 5, 20, 100, 1000]) * sc})
+        eps = rng.choice([0.001, 0.05, 0.5, 2, 5, 20, 100, 1000]) * sc
+        if rng.random() < 0.5:
+            # boundary class: tolerance just below / above a distance that decides a split (fix to chord of a piece)
+            # or the extent of the track (what a bounding-box shortcut would compare with)
+            cands = []
+            i = rng.randrange(len(pts)); a = rng.randrange(len(pts)); b = rng.randrange(len(pts))
+            cands.append(seg_dist(pts[i], pts[a], pts[b]))
+            cands.append(max(seg_dist(p, pts[0], pts[-1]) for p in pts))
+            xs = [p[0] for p in pts]; ys = [p[1] for p in pts]
+            cands += [max(xs) - min(xs), max(ys) - min(ys), math.hypot(max(xs) - min(xs), max(ys) - min(ys))]
+            c = rng.choice([v for v in cands if v > 0] or [sc])
+            eps = c * rng.choice([0.9, 0.99, 1.01, 1.1, 1.2, 1.35])
+        out.append({'pts': pts, 'eps': eps})
     return out
 
 
